@@ -605,15 +605,27 @@ def classify_validate(inp, out):
 def impl_overlap(inp):
     from abmarl.sim.gridworld.grid import Grid
     from abmarl.sim.gridworld.agent import GridWorldAgent
-    tbl, univ, queries = inp
+    tbl, univ, queries = inp[:3]
+    alias = len(inp) > 3 and inp[3]
+
+    def table():
+        t = to_py(tbl)
+        if alias and type(t) is dict:
+            # the same table, but equal set values are ONE shared set object (a caller who writes
+            # s = {3}; overlapping = {1: s, 2: s}): the relation supplied is the same
+            seen = {}
+            for k, v in list(t.items()):
+                if type(v) is set:
+                    t[k] = seen.setdefault(frozenset(v), v)
+        return t
     try:
-        g = Grid(2, 2, overlapping=to_py(tbl))
+        g = Grid(2, 2, overlapping=table())
     except Exception as e:  # noqa: BLE001
         c1 = [exc_code(e)]
         g = None
     g2 = Grid(2, 2)
     try:
-        g2.overlapping = to_py(tbl)
+        g2.overlapping = table()
         c2 = [0]
     except Exception as e:  # noqa: BLE001
         c2 = [exc_code(e)]
@@ -698,6 +710,12 @@ def gen_overlap(tier, rng):
             pairs.append([wI(k), v])
         univ = sorted(set(pool) | {9})
         yield [wD(pairs), univ, _queries(univ, rng, extra=4)]
+        if rng.random() < 0.3:
+            yield [wD(pairs), univ, _queries(univ, rng, extra=4), 1]
+    # aliased set values: two keys share one set object
+    for a, b, c in itertools.permutations([1, 2, 3, 4], 3):
+        yield [wD([[wI(a), wSet([wI(c)])], [wI(b), wSet([wI(c)])], [wI(4 if 4 not in (a, b, c) else 9), wSet([wI(a)])]]),
+               [1, 2, 3, 4, 9], _queries([1, 2, 3, 4, 9]), 1]
     # malformed tables
     good = [[wI(3), wSet([wI(2)])]]
     bad_tables = [wL([]), wT([]), wSet([wI(1)]), wI(1), wS("a"), wB(True), wF(1024),
@@ -1018,3 +1036,6 @@ COMPONENTS = [
     Component(1905, "box", impl_box, gen_box, chk=1906, known=known_box,
               nontrivial=nontrivial_box, classify=classify_box, repro=repro_box),
 ]
+
+# the model sees the table only: whether equal set values are one shared object is not part of it
+COMPONENTS[1].split = lambda inp, out: (inp[:3], out)
